@@ -5,7 +5,7 @@
  * last of the 6 / 15 emitted digits; one unit in the build with the library's own formatter).
  * Sanitised build, through SCPI_Input: all 2^8 and 2^16 values of the 8/16-bit types in bases 2/8/10/16, structured
  * 32- and 64-bit sets, booleans, all strings of length <= 5 (thorough 6) over {a " ' ; NL , blank DEL} and longer
- * strings, blocks of every length 0..1100 x 6 byte patterns, floats/doubles over a structured set x every decimal
+ * strings, blocks of every length 0..1100 x 8 byte patterns, floats/doubles over a structured set x every decimal
  * exponent, ASCII arrays of 0..5 elements.
  * Unsanitised build, token level (format -> lex -> SCPI_ParamTo*): one value per 64-value stratum of the 32-bit
  * space (quick) / ALL 2^32 values (thorough) x {Int32, UInt32 in bases 2, 8, 10, 16}.
@@ -327,10 +327,11 @@ int main(int argc, char ** argv) {
             }
         }
         /* blocks */
-        for (L = 0; L <= 1100; L++) for (b = 0; b < 6; b++) {
+        for (L = 0; L <= 1100; L++) for (b = 0; b < 8; b++) {
             static unsigned char blk[1200];
             if (!MC_CASE()) continue;
-            for (i = 0; i < L; i++) blk[i] = (unsigned char) (b == 0 ? i : b == 1 ? '\n' : b == 2 ? ';' : b == 3 ? '#' : b == 4 ? 0 : 0xFF);
+            /* patterns 6 and 7 repeat with no power-of-two period: a byte taken from the wrong offset of the data shows */
+            for (i = 0; i < L; i++) blk[i] = (unsigned char) (b == 0 ? i : b == 1 ? '\n' : b == 2 ? ';' : b == 3 ? '#' : b == 4 ? 0 : b == 5 ? 0xFF : b == 6 ? i % 251 : ((unsigned) i * 2654435761u) >> 13);
             job = T_BLOCK; j_blk = blk; j_len = (size_t) L;
             mc_case_tag = "block"; mc_case_i[0] = L; mc_case_i[1] = b;
             if (!trip("block")) continue;
